@@ -26,6 +26,56 @@ use std::path::PathBuf;
 use std::process::{Command, Stdio};
 use std::time::Instant;
 
+/// In a subprocess that runs the tree under test, the report to the parent must not share a descriptor with anything
+/// the tree may write to: descriptor 1 is handed to a scratch file at start-up (whatever the tree prints there by other
+/// means than the hooked `print!`/`println!` is kept, and noticed), and the report goes out on a private duplicate.
+pub struct Protocol {
+    out: std::fs::File,
+    stray: std::fs::File,
+    stray_seen: u64,
+}
+
+impl Protocol {
+    pub fn take_over_stdout() -> Protocol {
+        use std::os::unix::io::{AsRawFd, FromRawFd};
+        let path = std::env::temp_dir().join(format!("vcheck-stray-{}", std::process::id()));
+        let stray = std::fs::OpenOptions::new().create(true).truncate(true).read(true).write(true).open(&path).unwrap_or_else(|e| harness_error(&format!("{}: {e}", path.display())));
+        let _ = std::fs::remove_file(&path); // anonymous from here on
+        unsafe {
+            let private = libc::dup(1);
+            if private < 0 || libc::dup2(stray.as_raw_fd(), 1) < 0 {
+                harness_error("cannot take over stdout");
+            }
+            Protocol { out: std::fs::File::from_raw_fd(private), stray, stray_seen: 0 }
+        }
+    }
+
+    /// Before re-executing this program: descriptor 1 becomes the report channel again.
+    pub fn restore_stdout(&mut self) {
+        use std::os::unix::io::AsRawFd;
+        unsafe {
+            libc::dup2(self.out.as_raw_fd(), 1);
+        }
+    }
+
+    pub fn send(&mut self, line: &str) {
+        use std::io::Write;
+        let _ = self.out.write_all(line.as_bytes());
+        let _ = self.out.write_all(b"\n");
+        let _ = self.out.flush();
+    }
+
+    /// Bytes that reached descriptor 1 since the last call (written by the tree under test around the hooks).
+    pub fn stray_bytes(&mut self) -> u64 {
+        use std::io::Write;
+        let _ = std::io::stdout().flush();
+        let len = self.stray.metadata().map(|m| m.len()).unwrap_or(0);
+        let new = len.saturating_sub(self.stray_seen);
+        self.stray_seen = len;
+        new
+    }
+}
+
 pub fn verif_home() -> PathBuf {
     PathBuf::from(std::env::var("VERIF_HOME").unwrap_or_else(|_| "/verif".into()))
 }
@@ -109,27 +159,28 @@ fn c10_worker(args: &Args) {
         harness_error("no tasks found");
     }
     let mut scratch = Scratch::new(&format!("w{start}"));
-    let stdout = std::io::stdout();
+    let mut proto = Protocol::take_over_stdout();
     let mut i = start;
     while i < count {
         if deadline > 0 && t0.elapsed().as_secs() >= deadline {
-            let mut o = stdout.lock();
-            writeln!(o, "{}", serde_json::json!({"deadline_at": i})).unwrap();
+            proto.send(&serde_json::json!({"deadline_at": i}).to_string());
             break;
         }
-        let rep = c10::run_scenario(seed, i, &tasks, &tier, &mut scratch);
-        let tainted = rep.tainted;
-        {
-            let mut o = stdout.lock();
-            writeln!(o, "{}", serde_json::to_string(&rep).unwrap()).unwrap();
-            o.flush().unwrap();
+        let mut rep = c10::run_scenario(seed, i, &tasks, &tier, &mut scratch);
+        if proto.stray_bytes() > 0 {
+            // the tree printed to stdout around the hooked macros: what E1 captured is not what a user would see
+            rep.violations.clear();
+            rep.violations.push(c10::Replay { property: "C10".into(), seed, index: i, k: 0, case: gen::Case::placeholder(), sched: anthem_simrt::sched::SchedSpec::Calm { overrides: vec![] }, max_steps: 0, violation: oracle::Violation { class: "E1-inapplicable".into(), detail: "the tree under test writes to stdout by other means than the hooked print macros".into() }, digest: String::new(), note: String::new() });
         }
+        let tainted = rep.tainted;
+        proto.send(&serde_json::to_string(&rep).unwrap());
         i += stride;
         if tainted && i < count {
             // continue in a fresh process image (same stdout pipe): nothing of the aborted execution survives
             drop(scratch);
             let remaining = if deadline > 0 { deadline.saturating_sub(t0.elapsed().as_secs()).max(1) } else { 0 };
             use std::os::unix::process::CommandExt;
+            proto.restore_stdout();
             let err = Command::new(std::env::current_exe().unwrap())
                 .args(["c10-worker", "--seed", &seed.to_string(), "--tier", if tier.thorough { "thorough" } else { "quick" }, "--start", &i.to_string(), "--stride", &stride.to_string(), "--count", &count.to_string(), "--deadline-s", &remaining.to_string()])
                 .exec();
@@ -377,7 +428,7 @@ fn c10_parent(args: &Args) {
     let dying = aborted.len() >= 8;
     let inapplicable = e1_stuck || dying || reports.iter().flat_map(|r| r.violations.iter()).any(|v| v.violation.class == "E1-inapplicable");
     if inapplicable {
-        println!("NOTE: the tree under test {}; E1 results are discarded and the E2 engine decides (more cases)", if e1_stuck { "kept simulator workers busy in real time long after the wall cap (it sleeps or spins outside the simulator's control)" } else if dying { "made the in-process workers die again and again (it does something the in-process engine cannot host, e.g. real threads touching simulated pipes)" } else { "reaches the prover seams from threads the in-process simulator does not own (or keeps thread-local state that collides when simulated threads share one OS thread)" });
+        println!("NOTE: the tree under test {}; E1 results are discarded and the E2 engine decides (more cases)", if e1_stuck { "kept simulator workers busy in real time long after the wall cap (it sleeps or spins outside the simulator's control)" } else if dying { "made the in-process workers die again and again (it does something the in-process engine cannot host, e.g. real threads touching simulated pipes)" } else { "reaches the prover seams from threads the in-process simulator does not own (or keeps thread-local state that collides when simulated threads share one OS thread, or prints to stdout around the hooked macros)" });
         for r in reports.iter_mut() {
             r.violations.clear();
         }
@@ -711,9 +762,13 @@ fn c10_try(args: &Args) {
     let path = args.pos.first().cloned().unwrap_or_else(|| harness_error("usage: vcheck c10-try FILE"));
     let r: Replay = serde_json::from_str(&std::fs::read_to_string(&path).unwrap_or_else(|e| harness_error(&format!("{path}: {e}")))).unwrap_or_else(|e| harness_error(&format!("{path}: {e}")));
     let mut scratch = Scratch::new("try");
-    let (violations, digest, run, facts) = c10::replay_with_facts(&r, &mut scratch, false);
+    let mut proto = Protocol::take_over_stdout();
+    let (mut violations, digest, run, facts) = c10::replay_with_facts(&r, &mut scratch, false);
+    if proto.stray_bytes() > 0 {
+        violations = vec![oracle::Violation { class: "E1-inapplicable".into(), detail: "the tree under test writes to stdout by other means than the hooked print macros".into() }];
+    }
     let out = c10::TryOut { tasks: run.result.trace.tasks_seen, violations, digest, decisions: run.result.trace.decisions.clone(), vs_calm: run.result.trace.vs_calm.clone(), stdout: String::from_utf8_lossy(&run.result.sim.stdout).into_owned(), verdict: facts.verdict };
-    println!("{}", serde_json::to_string(&out).unwrap());
+    proto.send(&serde_json::to_string(&out).unwrap());
 }
 
 fn c10_replay(args: &Args) {
